@@ -19,7 +19,40 @@ def ulp(x):
     return float(np.spacing(abs(float(x)) + 1e-300))
 
 
+WHEN = {"suffix": ""}      # "" at construction time; "/after-another-mesh-was-built" when an older mesh is judged again
+
+
+class _KeyCtx:
+    """proxy adding the WHEN suffix to the mechanism keys"""
+    def __init__(self, ctx):
+        self._c = ctx
+
+    def true(self, name, cond, key, detail=None, cls=None):
+        return self._c.true(name, cond, key + WHEN["suffix"], detail, cls=cls)
+
+    def close(self, name, err, tol, key, detail=None, cls=None):
+        return self._c.close(name, err, tol, key + WHEN["suffix"], detail, cls=cls)
+
+    def __getattr__(self, n):
+        return getattr(self._c, n)
+
+
+def rejudge(ctx, m, args=None):
+    """judge an EXISTING mesh again (after other meshes have been built): nothing about it may have changed"""
+    WHEN["suffix"] = "/after-another-mesh-was-built"
+    try:
+        if isinstance(m, fmesh2d.mesh2d):
+            judge2d(ctx, m, {})
+        else:
+            kind = type(m).__name__
+            judge1d(ctx, m, "mesh1d" if kind == "unimesh" else kind, args or {})
+        ctx.ev("rejudged")
+    finally:
+        WHEN["suffix"] = ""
+
+
 def judge1d(ctx, m, kind, args):
+    ctx = _KeyCtx(ctx)
     cls = "mesh:" + kind
     n = m.ncell
     xf = np.asarray(m.xf, float)
@@ -58,6 +91,7 @@ def judge1d(ctx, m, kind, args):
 
 
 def judge2d(ctx, m, args):
+    ctx = _KeyCtx(ctx)
     cls = "mesh:2d"
     nx, ny, lx, ly = m.nx, m.ny, m.lx, m.ly
     n = nx * ny
@@ -139,7 +173,7 @@ def install(ctx):
 def setup(ctx):
     install(ctx)
     ctx.on_begin.append(lambda: _depth.__setitem__("n", 0))
-    ctx.require("mesh:mesh1d", "mesh:refinedmesh", "mesh:morphedmesh", "mesh:2d", "refined:integral-proportion", "refined:other-proportion")
+    ctx.require("mesh:mesh1d", "mesh:refinedmesh", "mesh:morphedmesh", "mesh:2d", "refined:integral-proportion", "refined:other-proportion", "rejudged")
 
 
 def teardown(ctx):
@@ -152,7 +186,9 @@ def uniform(ctx, rng, idx):
     n = int(rng.choice([1, 2, 3, int(rng.integers(1, 201))]))
     L = float(10 ** rng.uniform(-3, 3)); x0 = float(rng.choice([0.0, rng.uniform(-1, 1) * 10 ** rng.uniform(-3, 3)]))
     ctx.describe(kind="unimesh", ncell=n, length=L, x0=x0)
-    (fmesh.unimesh if idx % 2 else fmesh.mesh1d)(ncell=n, length=L, x0=x0)
+    m = (fmesh.unimesh if idx % 2 else fmesh.mesh1d)(ncell=n, length=L, x0=x0)
+    fmesh.mesh1d(ncell=n + 3, length=2 * L, x0=x0 - 1.0); fmesh.refinedmesh(ncell=max(2, n), length=3 * L)      # other meshes built afterwards
+    rejudge(ctx, m, {"ncell": n, "length": L, "x0": x0})
     ctx.nontrivial("uni", n, L, x0)
 
 
@@ -172,7 +208,9 @@ def refined(ctx, rng, idx):
         else:
             b = float(np.round(rng.uniform(0.2, 4), 2)); n = int(rng.integers(2, 201))
     ctx.describe(kind="refinedmesh", ncell=n, length=L, ratio=ratio, nratioa=a, nratiob=b)
-    fmesh.refinedmesh(ncell=n, length=L, ratio=ratio, nratioa=a, nratiob=b)
+    m = fmesh.refinedmesh(ncell=n, length=L, ratio=ratio, nratioa=a, nratiob=b)
+    fmesh.refinedmesh(ncell=n + 2, length=2 * L, ratio=1.0 / ratio, nratioa=b, nratiob=a); fmesh.unimesh(ncell=n, length=L)
+    rejudge(ctx, m, {"ncell": n, "length": L, "ratio": ratio, "nratioa": a, "nratiob": b, "x0": 0.0})
     ctx.nontrivial("refined", n, L, ratio, a, b)
 
 
@@ -191,7 +229,9 @@ def morphed(ctx, rng, idx):
         w = rng.uniform(0.1, 1.0, n); xf = np.concatenate([[0.0], np.cumsum(w)]); xf *= L / xf[-1]; base = np.linspace(0, L, n + 1)
         morph = lambda x: np.interp(x - x0, base, xf) + x0; d = "piecewise"
     ctx.describe(kind="morphedmesh", ncell=n, length=L, x0=x0, morph=d)
-    fmesh.morphedmesh(ncell=n, length=L, x0=x0, morph=morph)
+    m = fmesh.morphedmesh(ncell=n, length=L, x0=x0, morph=morph)
+    fmesh.morphedmesh(ncell=n + 1, length=2 * L, x0=0.0, morph=lambda x: 2 * x + 1.0)
+    rejudge(ctx, m, {"ncell": n, "length": L, "x0": x0, "morph": morph})
     ctx.nontrivial("morphed", n, L, x0, d)
 
 
@@ -200,7 +240,9 @@ def cartesian(ctx, rng, idx):
     nx, ny = int(rng.integers(1, 13)), int(rng.integers(1, 13))
     lx, ly = float(10 ** rng.uniform(-3, 3)), float(10 ** rng.uniform(-3, 3))
     ctx.describe(kind="mesh2d", nx=nx, ny=ny, lx=lx, ly=ly)
-    (fmesh2d.unimesh if idx % 2 else fmesh2d.mesh2d)(nx, ny, lx, ly)
+    m = (fmesh2d.unimesh if idx % 2 else fmesh2d.mesh2d)(nx, ny, lx, ly)
+    fmesh2d.mesh2d(ny + 1, nx + 2, ly * 2, lx); fmesh2d.unimesh(nx, ny + 1, lx, ly)        # other grids built afterwards
+    rejudge(ctx, m)
     ctx.nontrivial("2d", nx, ny, lx, ly)
 
 
